@@ -12,7 +12,8 @@ from pyvc import report
 PALETTE = ['int', 'bool', 'str', 'float', 'object', 'L0', 'L1', 'L2', 'None', 'Union[int, str]', 'Union[int, str, None]', 'Optional[L0]', 'Union[L2, L1]', 'Literal[1]', 'Literal[True]', "Literal[1, 'a']", "Literal['a']",
            'Literal[1, 2]', 'Literal[2]', 'Union[Literal[2], str]', 'Optional[Literal[2]]', 'list[Literal[1]]', 'list[Optional[Literal[2]]]', 'Annotated[int, V1]', 'Annotated[str, V1]', 'Annotated[bool, V1]', 'Annotated[int, V1, V2]', 'Annotated[L0, V1]', 'Annotated[L2, V1]', 'tuple[int, str]', 'tuple[bool, str]', 'tuple[int, ...]', 'tuple[bool, ...]',
            'tuple[int]', 'tuple[()]', 'tuple', 'list[int]', 'list[bool]', 'list', 'Sequence[int]', 'Sequence[bool]', 'Collection[int]', 'Iterable[int]', 'dict[str, int]', 'dict[str, bool]', 'Mapping[str, int]', 'Mapping[str, object]',
-           'set[int]', 'frozenset[int]', 'type[L0]', 'type[L2]', 'type', 'Callable[[int], str]', 'Callable[..., object]', 'Callable[[], str]', 'NT', 'TB', 'TBint', 'TBstr', 'T', 'G[int]', 'GL[int]']
+           'set[int]', 'frozenset[int]', 'type[L0]', 'type[L2]', 'type', 'Callable[[int], str]', 'Callable[..., object]', 'Callable[[], str]', 'NT', 'TB', 'TBint', 'TBstr', 'T', 'G[int]', 'GL[int]',
+           'Callable[[int], int]', 'Callable[[str], int]', 'Callable[[bool], int]', 'Falsy', 'list[Falsy]', 'list[Callable[..., object]]', 'Hashable', 'Sequence', 'Sequence[int]']
 OBJS = ['1', 'True', "'a'", '2.5', 'None', 'L0()', 'L1()', 'L2()', '(1, "a")', '(True, "a")', '(1,)', '()', '(1, 2, 3)', '(True, False)', '[1]', '[True]', "['a']", '[]', "{'a': 1}", "{'a': True}", '{1}', 'frozenset([1])', 'L0', 'L2', 'int',
         'len', '(lambda: 0)', '2', 'G()', 'GL([1])', "GL(['a'])"]
 
@@ -23,6 +24,10 @@ def setup_ns():
     if 'V1' not in NS:
         NS['V1'] = shapes.IS(shapes.pos); NS['V2'] = shapes.IS(shapes.even)
         NS['TBint'] = TypeVar('TX', bound=int); NS['TBstr'] = TypeVar('TX', bound=str)      # two distinct hints with the SAME repr
+        class _FalsyMeta(type):
+            def __len__(cls): return 0
+        class Falsy(metaclass=_FalsyMeta): pass          # a class object that is falsy (its metaclass defines __len__)
+        NS['Falsy'] = Falsy
     return NS
 
 def bounded(rep, tier):
@@ -76,6 +81,12 @@ def bounded(rep, tier):
             it = list(t1)
             if len(t1) != len(it) or any(t1[i] is not it[i] and t1[i] != it[i] for i in range(len(it))): fails.append(('coherent', f'len/iter/getitem of TypeHint({a}) disagree'))
             if any(ch not in t1 for ch in it): fails.append(('coherent', f'a child of TypeHint({a}) is not `in` it'))
+            # "len, iteration, indexing, containment and args all describe the same children"
+            try:
+                ar = tuple(t1.args)
+                same = len(ar) == len(it) and all((it[i].hint is ar[i]) or (it[i].hint == ar[i]) for i in range(len(it)))
+            except Exception as e: same = False
+            if not same: fails.append(('coherent', f'args_mismatch {type(t1).__name__}: TypeHint({a}).args = {ar!r} but its children are {[c.hint for c in it]!r}'))
             for b in names:
                 u = TypeHint(hints[b])
                 try: eqv = (t1 == u)
@@ -95,6 +106,10 @@ def bounded(rep, tier):
                             undecidable_pairs=len(errs)))
 
 def classify(msg):
+    if 'Hashable' in msg and not msg.startswith('args_mismatch'): return 'Hashable'
+    if 'Callable[..., object]' in msg and not msg.startswith('args_mismatch'): return 'Callable_ellipsis_object'
+    if msg.startswith('args_mismatch '): return 'args_mismatch_' + msg.split()[1].rstrip(':')
+    if msg.count('Callable[[') >= 3 and ' <= ' in msg: return 'Callable_params'       # transitivity across callables differing only in a parameter hint
     for key in ('Literal', 'Annotated', 'TBint', 'TBstr', 'tuple', 'Callable', 'type[', 'NT'):
         if key in msg: return key.strip('[')
     return 'other'
